@@ -180,7 +180,7 @@ def _decoders(ctx):
         for bits in msgs_iter:
             m = torch.tensor([bits], dtype=torch.float32)
             cw = enc(m)
-            for a in (1e-3, 0.5, 4.0, 12.0, 50.0, 1e3):
+            for a in (1e-3, 0.5, 1.0, 2.0, 4.0, 12.0, 50.0, 1e3):     # 1.0: the noise-free LLRs of the all-zero word are then a 0/1-free all-ones vector
                 l = (1 - 2 * cw) * a
                 try:
                     with contextlib.redirect_stdout(io.StringIO()):
